@@ -98,3 +98,11 @@ PROPS['C20'] = dict(
              'resources given back (round trip)': 'P',
              'request answered exactly once / result mapping / dispatch restore': 'not yet built',
              'time-out across two processes': 'N'})
+
+PROPS['C01'] = dict(
+    level='other',
+    claim='(under construction) Continuous._find_resources verified: cores handed out are free and pairwise distinct, whole GPUs free and distinct, GPU shares plus prior occupancy sum to at most one per GPU, blocked (DOWN) cells never handed out, lfs/mem of the slots within the node; all obligations discharged for every node size and request',
+    note='schedule_task, _change_slot_states, the scheduler loop and the application-level finder are being added',
+    assumptions=['A1', 'A2', 'A3', 'A4', 'A8', 'A11'],
+    explanation='per-node search under contract; occupancy invariant over grant/release being added',
+    clauses={'no core twice / shares <= 1 / lfs, mem within node (one node, one call)': 'P'})
